@@ -407,8 +407,13 @@ def _cfg_text(families, wide, invariants):
             + "".join(f"INVARIANT {i}\n" for i in invariants) + "CHECK_DEADLOCK FALSE\n"), fam
 
 
+QUICK_GROUPS = ("a", "b", "c", "d", "e")      # G_a .. G_e of AtenOps.tla: families grouped so that a quick run starts few JVMs
+
+
 def _tlc_family(arg):
     fam, tier, reg_path, workers = arg
+    if fam.endswith(".cfg"):        # a vacuity / can-fail configuration
+        return fam, core.run_tlc("AtenOps", fam, env={"C08_REG": reg_path}, timeout=600, workers=2, heap="2g"), []
     cfg = f"AtenOps_{'q' if tier == 'quick' else 't'}_{fam}.cfg"
     res = core.run_tlc("AtenOps", cfg, env={"C08_REG": reg_path}, timeout=2400, workers=workers, heap="4g")
     cases = []
@@ -420,27 +425,30 @@ def _tlc_family(arg):
 
 
 def tlc_cases(ctx, reg_path):
-    """one TLC run per family, run concurrently; design-level invariants must hold"""
+    """one TLC run per family (group), run concurrently; design-level invariants must hold"""
     from concurrent.futures import ThreadPoolExecutor
 
-    workers = 2 if ctx.quick else max(2, core.NCPU // 4)
-    with ThreadPoolExecutor(max_workers=len(FAMILIES)) as ex:
-        outs = list(ex.map(_tlc_family, [(f, ctx.tier, reg_path, workers) for f in FAMILIES]))
+    runs = list(QUICK_GROUPS if ctx.quick else FAMILIES)
+    extra = ["AtenOps_canfail.cfg"] + ([] if ctx.quick else ["AtenOps_vacuity.cfg"])
+    workers = 3 if ctx.quick else max(2, core.NCPU // 4)
+    with ThreadPoolExecutor(max_workers=len(runs) + len(extra)) as ex:
+        outs = list(ex.map(_tlc_family, [(f, ctx.tier, reg_path, workers) for f in runs + extra]))
     allcases = []
     for fam, res, cases in outs:
         ctx.tlc(res, f"AtenOps/{fam}")
+        if fam.endswith(".cfg"):
+            if res.ok:
+                what = ("the implementation model never departs from ATen: DesignOK cannot fail" if "canfail" in fam else "no case is reachable")
+                raise core.MachineryError(f"vacuity: {what} ({fam})")
+            continue
         if not res.ok:
             raise core.MachineryError(f"TLC reports {res.violated} on AtenOps family {fam}:\n{res.out[-2000:]}")
-        if not cases:
-            raise core.MachineryError(f"vacuity: AtenOps family {fam} produced no case (registry empty?)")
-        for c in cases:
-            c["family"] = fam
         allcases += cases
-    for cfg, what in (("AtenOps_vacuity.cfg", "no case is reachable"), ("AtenOps_canfail.cfg", "the implementation model never departs from ATen: DesignOK cannot fail")):
-        vac = core.run_tlc("AtenOps", cfg, env={"C08_REG": reg_path}, timeout=600, workers=4, heap="2g")
-        ctx.tlc(vac, cfg)
-        if vac.ok:
-            raise core.MachineryError(f"vacuity: {what} ({cfg})")
+    fams = {}
+    for c in allcases:
+        fams[c["op"]] = fams.get(c["op"], 0) + 1
+    if len(allcases) < 1000 or len(fams) < 100:
+        raise core.MachineryError(f"vacuity: AtenOps produced only {len(allcases)} cases over {len(fams)} operators (registry not read?)")
     return allcases
 
 
@@ -601,7 +609,7 @@ def select_cases(ctx, cases):
     return out
 
 
-QUICK_PER_OP = int(os.environ.get("VERIF_C08_PER_OP", "45"))
+QUICK_PER_OP = int(os.environ.get("VERIF_C08_PER_OP", "150"))
 
 
 def run(ctx: core.Ctx):
@@ -611,11 +619,32 @@ def run(ctx: core.Ctx):
     reg_path = os.path.join(core.scratch(), "c08_registry.json")
     reg = dump_registry(reg_path)
     ctx.set("registry_entries", len(reg))
-    cases = tlc_cases(ctx, reg_path)
+    import threading
+
+    box: dict = {}
+
+    def _mods():
+        try:
+            box["mods"] = tlc_modules(ctx, reg_path, 12 if ctx.quick else 160)
+        except BaseException as e:  # noqa: BLE001
+            box["err"] = e
+
+    th = threading.Thread(target=_mods)
+    th.start()
+    try:
+        cases = tlc_cases(ctx, reg_path)
+    finally:
+        th.join()
+    if "err" in box:
+        raise box["err"]
+    mods = box["mods"]
     ctx.set("spec_cases", len(cases))
     ctx.set("operators_in_spec", len({c["op"] for c in cases}))
     chosen = select_cases(ctx, cases)
-    results = core.pmap_safe(run_case, chosen, timeout=120)
+    translation_table()
+    allres = core.pmap_safe(run_item, [("module", m) for m in mods] + [("case", c) for c in chosen], timeout=300)
+    judge_modules(ctx, mods, allres[: len(mods)])
+    results = allres[len(mods):]
     stats: dict = {}
     groups: dict = {}
     nontriv = set()
@@ -784,14 +813,15 @@ def run_module(mod):
 def tlc_modules(ctx, reg_path, n):
     env = {"C08_REG": reg_path}
     design = "AtenModule_design_quick.cfg" if ctx.quick else "AtenModule_design.cfg"
-    res = core.run_tlc("AtenModule", design, env=env, timeout=2400, workers=max(2, core.NCPU // 2), heap="4g")
+    res = core.run_tlc("AtenModule", design, env=env, timeout=2400, workers=2 if ctx.quick else max(2, core.NCPU // 2), heap="4g")
     ctx.tlc(res, design)
     if not res.ok:
         raise core.MachineryError(f"TLC reports {res.violated} on {design}:\n" + "\n".join(l for l in res.out.splitlines() if not l.startswith('"C08'))[-2000:])
-    vac = core.run_tlc("AtenModule", "AtenModule_vacuity.cfg", env=env, timeout=600, workers=4, heap="2g")
-    ctx.tlc(vac, "AtenModule_vacuity.cfg")
-    if vac.ok:
-        raise core.MachineryError("vacuity: no module step with operands of different element types is reachable in AtenModule.tla")
+    if not ctx.quick:
+        vac = core.run_tlc("AtenModule", "AtenModule_vacuity.cfg", env=env, timeout=600, workers=2, heap="2g")
+        ctx.tlc(vac, "AtenModule_vacuity.cfg")
+        if vac.ok:
+            raise core.MachineryError("vacuity: no module step with operands of different element types is reachable in AtenModule.tla")
     w = 4
     sim = core.run_tlc("AtenModule", "AtenModule_sim.cfg", env=env, simulate=f"num={max(1, (n + w - 1) // w)}", depth=80,
                        seed=ctx.seed + 1, workers=w, timeout=2400, heap="4g")
@@ -808,19 +838,28 @@ def tlc_modules(ctx, reg_path, n):
     if not mods:
         raise core.MachineryError("vacuity: the simulation of AtenModule.tla produced no finished module")
     mods.sort(key=lambda m: json.dumps(m, sort_keys=True))
+
+    def mixed(m):      # vacuity witness read off TLC's output: a binary step over two different element types
+        for st in m["prog"]:
+            refs = [x["v"] for x in st["args"] if x["k"] == "ref"]
+            if st["op"] in ("aten::add.Tensor", "aten::sub.Tensor", "aten::mul.Tensor", "aten::maximum", "aten::minimum", "aten::floor_divide",
+                            "aten::eq.Tensor", "aten::lt.Tensor", "aten::ge.Tensor", "aten::ne.Tensor") and len(refs) == 2 \
+                    and m["env"][refs[0] - 1]["dt"] != m["env"][refs[1] - 1]["dt"]:
+                return True
+        return False
+
+    if not ctx.quick and not any(mixed(m) for m in mods):
+        raise core.MachineryError("vacuity: no simulated module has a step over operands of different element types")
     return mods[:n]
 
 
-def run_modules(ctx, reg_path):
-    n = 16 if ctx.quick else 160
-    mods = tlc_modules(ctx, reg_path, n)
-    results = core.pmap_safe(run_module, mods, timeout=300)
+def judge_modules(ctx, mods, results):
     stats: dict = {}
-    mixed = 0
     for mod, r in zip(mods, results):
         ctx.add("evaluations")
         ctx.add("modules")
         text = module_text(mod)
+        known = sorted(mod.get("known", []))
         if not isinstance(r, dict):
             stats["hang"] = stats.get("hang", 0) + 1
             print(f"SPEC-MISMATCH C08 module [{text}]: the export worker did not finish: {r!r}", flush=True)
@@ -839,27 +878,35 @@ def run_modules(ctx, reg_path):
         o = r["onnx"]
         ref = r.get("ref")
         ref_ok = ref is not None and "err" not in ref
-        case = {"module": text, "env": mod["env"], "prog": mod["prog"], "torch": t, "onnx": o, "ref": ref}
+        case = {"module": text, "env": mod["env"], "prog": mod["prog"], "known": known, "torch": t, "onnx": o, "ref": ref}
+        verdict, what = "ok", ""
         if "err" in o:
             if o["err"] in ("capture", "unsupported"):
-                stats["discarded"] = stats.get("discarded", 0) + 1
-                continue
-            if o["err"] == "ort" and "Non-zero status code returned while running" in o["msg"] and ref_ok and not diff_results(t, ref):
-                stats["discarded"] = stats.get("discarded", 0) + 1
-                continue
-            stats["refused"] = stats.get("refused", 0) + 1
-            ctx.report(case, f"module [{text}]: torch.onnx.export(dynamo=True) with this repository's functions fails or yields a model onnxruntime rejects: {o['msg'][:300]}")
-            continue
-        d = diff_results(t, o)
-        if d and ("shape" in d or "values" in d) and ref_ok and not diff_results(t, ref):
-            stats["discarded"] = stats.get("discarded", 0) + 1
-            continue
-        if d:
-            stats["wrong"] = stats.get("wrong", 0) + 1
-            ctx.report(case, f"module [{text}]: the exported model differs from the module - {d}")
+                verdict = "discarded"
+            elif o["err"] == "ort" and "Non-zero status code returned while running" in o["msg"] and ref_ok and not diff_results(t, ref):
+                verdict = "discarded"
+            else:
+                verdict = "refused"
+                what = f"module [{text}]: torch.onnx.export(dynamo=True) with this repository's functions fails or yields a model onnxruntime rejects: {o['msg'][:300]}"
         else:
-            stats["ok"] = stats.get("ok", 0) + 1
+            d = diff_results(t, o)
+            if d and ("shape" in d or "values" in d) and ref_ok and not diff_results(t, ref):
+                verdict = "discarded"
+            elif d:
+                verdict = "wrong"
+                what = f"module [{text}]: the exported model differs from the module - {d}"
+        stats[verdict] = stats.get(verdict, 0) + 1
+        if verdict in ("refused", "wrong"):
+            ctx.report(case, what, finding=known[0] if known else None)
+        elif verdict == "ok" and known:
+            stats["model_mismatch"] = stats.get("model_mismatch", 0) + 1
+            print(f"SPEC-MISMATCH C08 module [{text}]: impl: the model expects the export to fail ({known}) but it agrees with the module", flush=True)
     ctx.set("module_outcomes", stats)
     if mods:
         ctx.sample({"module": module_text(mods[0])})
     return stats
+
+
+def run_item(item):
+    kind, x = item
+    return run_module(x) if kind == "module" else run_case(x)
